@@ -53,6 +53,17 @@ THEOREMS = [
     # both regimes (no hypothesis on the accounted duration at the end of the interlude), the bound in the monitor's form,
     # and the late regime of the open finding: the pump stops after the compute delay
     "Poupool.Eco.C10_quota_heating_day_monitor_partial",
+    # any number of heating days in a run, at most one complete interlude per day (Proofs/EcoDayHeat3.lean: the invariants are
+    # re-established at every reset, the finished days never influence the behaviour): every whole day in the monitor's form
+    "Poupool.Eco.C10_quota_heating_days_partial",
+    # any number of complete interludes per day: bounds in terms of the pump-on time left unaccounted by the interludes (U)
+    "Poupool.Eco.C10_quota_heating_days_multi_partial",
+    # model witnesses: with three interludes in one day the pump-on time exceeds max(quota, on-time at the end of the last
+    # interlude) + 180 s (open known finding quota-exceeded-by-repeated-heating-interludes, replayed on the real code below);
+    # a day that starts during an interlude is not classified as a heating day by the model's ghost (interludes across the
+    # reset are outside the theorems)
+    "Poupool.Eco.C10_quota_monitor_upper_three_interludes_counterexample",
+    "Poupool.Eco.C10_interlude_spanning_reset_plain_flag_counterexample",
 ]
 
 
@@ -192,6 +203,8 @@ def run(chk):
         chk.violation("EcoMode.compute:phase-lengths", "the real EcoMode.compute yields a negative pause / pool phase, a tank phase below one minute, or raises: " + fail["observed"], fail)
     # 4b. literal reading of the statement vs scheduled heating late in the day (known finding, replayed on every run)
     late_heating_finding(chk)
+    # 4c. several heating interludes in one day (known finding from three interludes on, replayed on every run; two must hold)
+    repeated_interludes_finding(chk)
     # 5. closed loop
     mfail, cbad = closed_loop(chk, 112 if quick else 800)
     if mfail:
@@ -241,6 +254,75 @@ def late_heating_finding(chk):
                       {"kind": "loop", "scenario": LATE_HEATING, "days": r["monitor"]})
 
 
+MULTI = {"kind": "heat", "start": "2024-06-02T23:59:30", "daily": 600, "period": 1, "tank": 0.0, "reset_hour": 0,
+         "heat": {"start_hour": 0, "setpoint": 26.0, "pool": 24.5, "minutes": 0.3}, "days": 1.01, "whole_days": 1}
+
+
+class MultiEnv:
+    """k heating interludes in one day: each ends `run_s` after the heat-pump valve opened (the pool reaches setpoint + 1);
+    once the heat pump has rested, the pool is back below the setpoint and the user re-sends the setpoint, which re-arms the
+    daily run (the 'restart' hack of Heating.setpoint)"""
+
+    def __init__(self, s, h, k, run_s=20, gap_s=400):
+        self.s, self.h, self.k, self.run, self.gap = s, h, k, run_s, gap_s
+        self.since = None
+        self.off_at = None
+        self.n = 0
+
+    def step(self):
+        on = self.s.pin_on("heating")
+        now = self.s.world.now_us
+        if on and self.since is None:
+            self.since = now
+            self.n += 1
+        if on and now - self.since >= self.run * ec.US:
+            self.s.set_temp("temperature_pool", self.h["setpoint"] + 1.0)
+        if not on and self.since is not None:
+            self.since = None
+            self.off_at = now
+        if not on and self.off_at is not None and self.n < self.k and now - self.off_at >= self.gap * ec.US:
+            self.off_at = None
+            self.s.set_temp("temperature_pool", self.h["pool"])
+            self.s.mqtt_in("/settings/heating/setpoint", str(self.h["setpoint"]))
+
+
+def run_multi(k):
+    sc = dict(MULTI)
+    s = ec.new_system(sc)
+    for t, p in ec.settings_of(sc):
+        s.mqtt_in(t, p)
+    s.mqtt_in("/status/filtration/duration", "0")
+    s.mqtt_in("/settings/mode", "eco")
+    env = MultiEnv(s, sc["heat"], k)
+    ec.run_real(sc, s=s, env=env, chunk_s=5.0)
+    fails = ec.monitor_days(sc, s)
+    s.world.close() if hasattr(s.world, "close") else None
+    return fails, env.n
+
+
+def repeated_interludes_finding(chk):
+    """Found by the proof: the day theorem with several interludes (`C10_quota_heating_days_multi_partial`) only closes with the
+    pump-on time U that the interludes leave unaccounted (the 60 s post-run circulation and the 5 s compute delay of each), and
+    `C10_quota_monitor_upper_three_interludes_counterexample` is a model run in which three interludes push the day's pump-on
+    time beyond max(quota, on-time at the end of the last interlude) + 180 s.  Replayed here on the real composed system: the
+    user re-sends the heating setpoint twice in one day (each re-arms the scheduled run).  Two interludes must stay inside the
+    3 minutes; from three on the excess is the open known finding."""
+    for k in (2, 3):
+        fails, n = run_multi(k)
+        if n != k:
+            chk.note(f"repeated-interludes replay: {n} interludes took place instead of {k}")
+            continue
+        if not fails:
+            continue
+        d = fails[0]
+        rp = {"kind": "multi", "interludes": k, "scenario": MULTI, "days": fails}
+        if k >= 3:
+            chk.violation("Filtration.eco-cycle:quota-exceeded-by-repeated-heating-interludes",
+                          f"{k} scheduled-heating interludes in one day (setpoint re-sent {k - 1} times): pump ran {d['pump_on_us'] / ec.US:.0f} s on a day configured for {d['expected_us'] / ec.US:.0f} s, quota not used up when the last interlude ended", rp)
+        else:
+            chk.violation("Filtration.eco-cycle:daily-quota", f"{k} heating interludes in one day: pump ran {d['pump_on_us'] / ec.US:.1f} s, configured {d['expected_us'] / ec.US:.0f} s (beyond 180 s)", rp)
+
+
 def search(chk):
     """the machinery broke (translator could not read the tree): the monitors do not need it"""
     cases, fail = ec.compute_monitor(chk.seed, 3000)
@@ -261,6 +343,10 @@ def replay(path):
     rp = data.get("replay", data)
     if rp.get("kind") == "compute":
         return ec.replay_compute(rp)
+    if rp.get("kind") == "multi":
+        fails, n = run_multi(rp["interludes"])
+        print(json.dumps({"interludes": n, "failing_days": fails}, indent=1, default=str))
+        return 1 if fails else 0
     if rp.get("kind") == "loop":
         sc = rp["scenario"]
         s, _ = ec.run_real(sc)
